@@ -17,9 +17,9 @@ from vt.harness import excat
 
 PID = "C19"
 RULE = (
-    "Hypothesis-generated exception graphs as recipes: 1-6 nodes, each a class from a 37-entry catalogue (builtins incl. "
+    "Hypothesis-generated exception graphs as recipes: 1-6 nodes, each a class from a 38-entry catalogue (builtins incl. "
     "OSError family / UnicodeDecodeError / KeyError / StopIteration / ExceptionGroup, BaseException subclasses, "
-    "module-level, nested, function-local, type()-created, name-shadowing and module-less classes, custom __init__ "
+    "module-level, nested, function-local, type()-created, name-shadowing, unloaded-module and module-less (__module__ None) classes, custom __init__ "
     "signatures, taskiq's own errors), 0-3 args from JSON-native values (incl. >64-bit ints, nested containers) or 23 "
     "awkward ones (bytes, set, complex, datetime, Decimal, lambda, lock, generator, un-repr-able object, nan/inf, tuple, "
     "int-keyed dict, str subclass, lone-surrogate text and key, NUL, exception instances incl. ones that pickle but cannot be unpickled), cause / context edges to ANY node (shared nodes, "
@@ -49,7 +49,7 @@ CLASSES: Dict[str, Any] = dict(
     UnicodeEncodeError=UnicodeEncodeError, ExceptionGroup=ExceptionGroup, AttributeError=AttributeError,
     ModErr=excat.ModErr, ModBase=excat.ModBase, Inner=excat.Outer.Inner, Innermost=excat.Outer.Deeper.Innermost, TwoArgs=excat.TwoArgs,
     KwOnly=excat.KwOnly, NoArgsKept=excat.NoArgsKept, WithState=excat.WithState, DerivedKeyErr=excat.DerivedKeyErr, PickyInit=excat.PickyInit, ValueInit=excat.ValueInit,
-    Loc=excat.make_local(), LocB=excat.make_local_base(), Dyn=excat.Dyn, DynHidden=excat.DynHidden, DynShadow=excat.DynShadow,
+    Loc=excat.make_local(), LocB=excat.make_local_base(), Dyn=excat.Dyn, DynHidden=excat.DynHidden, DynShadow=excat.DynShadow, DynNoModule=excat.DynNoModule,
     BadReprExc=excat.BadReprExc, TqTimeout=TaskiqResultTimeoutError, NoResult=NoResultError, Security=SecurityError, SendTask=SendTaskError,
 )
 
@@ -105,7 +105,7 @@ def build(g: List[Dict[str, Any]]) -> BaseException:
 
 
 def resolvable(cls: type) -> bool:
-    mod = sys.modules.get(cls.__module__)
+    mod = sys.modules.get(cls.__module__) if isinstance(cls.__module__, str) else None
     if mod is None:
         return False
     obj: Any = mod
